@@ -299,9 +299,50 @@ func ruleResolutionKeepsNothing(w *core.World, r *core.Report) {
 		return
 	}
 	t := buildResolutionTree(resolver)
+	// what is computed from the command: the resolver's own parameters, what the calls inside the resolution pass on
+	// of them, and what a callback is handed by whoever it was given to (a node's reply)
+	cmdParam := map[*ssa.Parameter]bool{}
 	isCommand := func(v ssa.Value) bool {
 		p, ok := v.(*ssa.Parameter)
-		return ok && t.in[p.Parent()]
+		return ok && cmdParam[p]
+	}
+	for _, g := range t.order {
+		for _, p := range g.Params {
+			if g == resolver || (len(t.bindings[p]) == 0 && g.Parent() != nil) {
+				cmdParam[p] = true
+			}
+		}
+	}
+	// a bound method handed out as a callback: its parameters other than the receiver are handed in from outside
+	for _, g := range t.order {
+		for _, in := range core.OwnInstrs(g) {
+			if mc, ok := in.(*ssa.MakeClosure); ok {
+				if fn, isFn := mc.Fn.(*ssa.Function); isFn {
+					if m := boundMethod(fn); m != nil && t.in[m] {
+						for _, p := range m.Params[1:] {
+							if len(t.bindings[p]) == 0 {
+								cmdParam[p] = true
+							}
+						}
+					}
+				}
+			}
+		}
+	}
+	for changed := true; changed; {
+		changed = false
+		for p, bs := range t.bindings {
+			if cmdParam[p] {
+				continue
+			}
+			for _, b := range bs {
+				if core.DependsOnDeep(b, isCommand) {
+					cmdParam[p] = true
+					changed = true
+					break
+				}
+			}
+		}
 	}
 	type access struct {
 		in     ssa.Instruction
